@@ -24,7 +24,9 @@ META = {
                 "every match exactly once. For every corner (and sampled) declaration a real server is compiled and the "
                 "complete sweep start, end in {0..maxHandle+2, 0xFFFF} x every attribute type of the table + absent types x "
                 "opcodes x MTU {23, server max} plus the client-side enumeration from every start is executed and every "
-                "request/response pair is validated by TLC.",
+                "request/response pair is validated by TLC. For every UUID of the table the 128 bit base-UUID alias (must "
+                "behave like the 16 bit form) and near aliases (non-zero top 16 bits, one flipped bit per UUID group; must "
+                "never match) are requested on the whole table and on every single handle.",
         "note": "corner declarations in quick, + TLC-sampled declarations in thorough; unencrypted link; attributes that are "
                 "not readable may be skipped or end a Read By Type list (property is silent); error handle field unconstrained; "
                 "trusted: TLC, gen_server.py, harness/gatt, g++/ASan.",
@@ -34,7 +36,9 @@ META = {
                 "Find By Type Value <<Primary Service>> + every service UUID of the declaration (16 and 128 bit, UUIDs shared by "
                 "a primary and a secondary service, absent UUIDs) over all start/end pairs and MTU {23, server max}; allowed "
                 "responses contain exactly a non-empty prefix of the *primary* services in range with group end = last attribute "
-                "of the service; TLC validates every recorded response and every client-side enumeration.",
+                "of the service; TLC validates every recorded response and every client-side enumeration. Values next to every "
+                "service UUID (128 bit alias, near aliases, a 16 byte value that only starts with a 16 bit UUID, one-bit "
+                "neighbours and 2 byte fragments of 128 bit UUIDs) are searched on the whole table and every single handle.",
         "note": "corner declarations mix primary/secondary in every order; thorough adds TLC-sampled declarations; Read By Group "
                 "Type <<Secondary Service>> may be answered or rejected; trusted: TLC, gen_server.py, harness/gatt, g++/ASan.",
         "technique": _TECH, "design_ref": "5.1"}}
@@ -63,6 +67,60 @@ def grid(srv):
     """handle grid and attribute types of the table - taken from TLC's evaluation of GattDb (GattDbGen), not recomputed"""
     t = srv.table
     return list(range(0, t["maxHandle"] + 3)) + [0xFFFF], uniq(t["types"]), uniq(t["svcUuids"])
+
+
+def alias128(t16):
+    """0000TTTT-0000-1000-8000-00805F9B34FB, little endian"""
+    return BASE + t16 + [0, 0]
+
+
+def flip(u, i):
+    v = list(u)
+    v[i] ^= 1
+    return v
+
+
+def near_aliases(t16):
+    """128 bit values that are NOT the type t16: non-zero top 16 bits, one flipped bit in each other group of the base UUID"""
+    a = alias128(t16)
+    return [BASE + t16 + [0x34, 0x12], flip(a, 0), flip(a, 6), flip(a, 8), flip(a, 10)]
+
+
+def near_128(u):
+    """128 bit values one bit away from the 128 bit UUID u (one per group of the textual form)"""
+    return [flip(u, 0), flip(u, 6), flip(u, 8), flip(u, 10), flip(u, 12)]
+
+
+def spot_ranges(srv):
+    """ranges for the alias / near-alias types and values: whole table, exact table, every single handle"""
+    t = srv.table
+    return uniq([(1, 0xFFFF), (1, t["maxHandle"])] + [(h, h) for h in t["handles"]])
+
+
+def alias_requests(prop, srv):
+    """for every UUID of the table its 128 bit alias (must behave like the 16 bit form) and near aliases (must never
+    match); a general product over the table's types / service UUIDs x spot_ranges, no knowledge of the implementation"""
+    _, types, svcs = grid(srv)
+    reqs = []
+    for s, e in spot_ranges(srv):
+        rng = le16(s) + le16(e)
+        if prop == "C02":
+            for ty in types:
+                variants = ([alias128(ty)] + near_aliases(ty)) if len(ty) == 2 else near_128(ty)
+                for v in variants:
+                    reqs.append([0x08] + rng + v)
+            for v in near_aliases(U_PRIMARY):
+                reqs.append([0x10] + rng + v)
+        else:
+            for u in svcs:
+                if len(u) == 2:
+                    # alias (may match), near aliases and a 16 byte value that merely starts with the UUID (never match)
+                    values = [alias128(u)] + near_aliases(u) + [u + [0x5A] * 14]
+                else:
+                    values = near_128(u) + [u[0:2], u[12:14]]
+                for v in values:
+                    reqs.append([0x06] + rng + U_PRIMARY + v)
+    return reqs
 
 
 def requests(prop, srv):
@@ -105,7 +163,7 @@ def scripts(prop, srv, quick):
     big = _gatt.big_mtu(srv)
     for mtu in [23] + ([big] if big > 23 else []):
         head = ["reset"] + (["mtu 0 %d" % mtu] if mtu > 23 else [])
-        lines = ["req 0 " + " ".join(str(b) for b in r) for r in requests(prop, srv)]
+        lines = ["req 0 " + " ".join(str(b) for b in r) for r in requests(prop, srv) + alias_requests(prop, srv)]
         lines += ["enum 0 " + " ".join(str(b) for b in r) for r in enum_requests(prop, srv, quick)]
         for i, part in enumerate(vlib.chunks(lines, max(1, (len(lines) + CHUNK - 1) // CHUNK))):
             out.append(("%s_m%d_%d" % (prop, mtu, i), head + part))
